@@ -265,7 +265,7 @@ class Bot:
         self._rhythm.return_to_mainloop()
 
         # Pylint doesn't seem to understand "Row" is a list here
-        treble = self._rounds[0]  # pylint: disable=unsubscriptable-object
+        treble = self._opening_row[0]  # pylint: disable=unsubscriptable-object
 
         # Count number of user controlled bells
         number_of_user_controlled_bells = sum(
